@@ -338,10 +338,11 @@ class CircuitCompositeOperation(ICircuitCompositeOperation):
         :return: Self. Extend self with other graph branch.
         """
         leaf_nodes = self._circuit_graph.leaf_nodes
-        reference_operations: List[ICircuitOperation] = [node.operation for node in leaf_nodes]
 
         # Guard clause, if root node is leaf node, ensure incoming nodes have relation pointing to graph-head
         root_is_leaf: bool = len(leaf_nodes) == 1 and leaf_nodes[0].is_root
+        # The root node (of an empty composite) does not hold an operation
+        reference_operations: List[ICircuitOperation] = [] if root_is_leaf else [node.operation for node in leaf_nodes]
 
         for node in other._circuit_graph.get_node_iterator():
             if not node.operation.has_relation:
